@@ -645,6 +645,14 @@ def r6_recognition_by_content(ctx, res):
         res.find(key, cv.loc(apps[0][4]), f'Collection.packages keeps a directory when {sorted(apps[0][2])}; expected exactly is_package_directory(path)')
 
 
+def r7_prescan_agrees_with_parser(ctx, res):
+    """the file routes (add of .xml/.gz/.xz/package/tar) decide what to skip from scan_lexicons(), the in-memory route
+    (lmf.load + add_lexical_resource) from the parsed document: the routes store the same thing only if the pre-scan sees
+    what the parser sees - quoting, entities, comments (also across lines), element kinds (analysis of C20-R4)."""
+    from .c20 import r4_scan_equals_load
+    r4_scan_equals_load(ctx, res)
+
+
 RULES = [
     ('C07-R1', r1_sibling_entry_points, 5),
     ('C07-R2', r2_skip_dominance, 2),
@@ -652,4 +660,5 @@ RULES = [
     ('C07-R4', r4_files, 8),
     ('C07-R5', r5_per_item_state, 2),
     ('C07-R6', r6_recognition_by_content, 7),
+    ('C07-R7', r7_prescan_agrees_with_parser, 7),
 ]
